@@ -489,6 +489,15 @@ fn main() {
                 }
             }
         }
+        Some("find-banded") => {
+            // verif-pbt find-banded <g1|g2> <trials-per-thread> [threads]: walk [k]G (crate arithmetic) and print the
+            // scalars of SUBGROUP points that have a coordinate in a numerically special band (see recipes::band_of)
+            let g2 = args.get(2).map(|s| s == "g2").unwrap_or(false);
+            let trials: u64 = args.get(3).and_then(|s| s.parse().ok()).unwrap_or(1 << 20);
+            let threads: u64 = args.get(4).and_then(|s| s.parse().ok()).unwrap_or(16);
+            verif_pbt::recipes::find_banded(g2, trials, threads);
+            0
+        }
         Some("gen-corpus") => {
             gen_corpus();
             0
